@@ -14,6 +14,14 @@ Proof.
     exists a. split; [exact Hin|]. apply bytes_eqb_eq. exact He.
 Qed.
 
+Theorem handler_writes_sound : forall t, handler_writes_ok t = true ->
+  forall a, In a t -> handler_write a = true -> a_locked a = true.
+Proof.
+  intros t H a Hin Hw. unfold handler_writes_ok in H. rewrite forallb_forall in H. specialize (H a Hin).
+  rewrite Hw in H. exact H.
+Qed.
+Print Assumptions handler_writes_sound.
+
 (* satisfiable, and not trivially so *)
 Example lock_facts_example_ok :
   lock_facts_ok [mkAcc [72]%N f_VarlinkDispatch AR false; mkAcc [72]%N [82]%N AR false] = true.
